@@ -20,7 +20,17 @@ inductive LeafKind where
 structure Index where
   kind : LeafKind
   lists : List (Token × List Nat)
+  /-- compact only: the file's namespace table (`NamespaceTable.FromEncoded`) -/
+  names : List String := []
   deriving Repr
+
+/-- The keys `Advance` may be called with.  A key is `TypeAndNamespace * 2^64 + value`,
+`TypeAndNamespace = type * 8192 + namespace index`; a compact iterator panics (`nt.Encode`) on a key whose namespace is
+not in the file's table. -/
+def Index.dom (ix : Index) (k : Nat) : Prop :=
+  match ix.kind with
+  | .compact => (k / 2 ^ 64) / 8192 < 8 ∧ (k / 2 ^ 64) % 8192 < ix.names.length
+  | _ => True
 
 /-- tokens strictly increasing, posting lists strictly increasing -/
 def Index.Valid (ix : Index) : Prop :=
@@ -89,6 +99,20 @@ def SQuery.WF : SQuery → Prop
 def SQuery.WFList : List SQuery → Prop
   | [] => True
   | q :: qs => q.WF ∧ SQuery.WFList qs
+end
+
+mutual
+/-- every `KeyRange` begins at a key of the domain (it is passed to `Advance`) -/
+def SQuery.KeysIn (K : Nat → Prop) : SQuery → Prop
+  | .empty => True
+  | .all _ => True
+  | .union qs => SQuery.KeysInList K qs
+  | .inter qs => SQuery.KeysInList K qs
+  | .keyRange b _ q => K b ∧ q.KeysIn K
+  | .tokenPrefix _ => True
+def SQuery.KeysInList (K : Nat → Prop) : List SQuery → Prop
+  | [] => True
+  | q :: qs => q.KeysIn K ∧ SQuery.KeysInList K qs
 end
 
 end B6.Spec.SearchQuery
